@@ -36,6 +36,22 @@ ROUND2_FIX = {
  "C17d": "C17 never cloned in place -> the CLI slice also clones over a prior output holding the chunks in reverse order",
 }
 ROUND3_FIX = {
+ "C01e": "no source reached 4 GiB -> a virtual source of 4 GiB + 48 MiB through the real library writer and clone output into a comparing sink (quick), and a sparse 4 GiB file through the real binary (thorough)",
+ "C02e": "seeded clones used chunks of a few bytes -> 3 MiB chunks (more than one write(2) takes) supplied by a seed file, by stdin and by the archive, on a real file",
+ "C04e": "only every 7th corruption went through the real binary and none decoded to a shorter chunk -> every structural corruption through the binary, a compressed tail chunk whose payload is laid over another chunk's",
+ "C05e": "quick priors had at most 2 letters: no chunk moved into the place of a bigger neighbour -> the source shifted by every letter as prior output",
+ "C06e": "CLI in-place priors had at most 2 letters in the quick tier -> priors [a, a, b] (a chunk twice before another one), duplicate layouts in the binary leg",
+ "C07e": "C07 never ran a clone: the set of missing chunks was the one handed to the reader -> C06's CLI scenarios over HTTP judged by C07's statement against the reference clone model",
+ "C07f": "no run was larger than a few hundred bytes -> runs of 1..9 adjacent chunks of 8 MiB served from a virtual hole",
+ "C09f": "C09 had no leg on the command's input handling -> the C12 binary leg (now with the input given as a named pipe and as /dev/stdin) is also a leg of C09",
+ "C12e": "the library writer wrote into a Vec -> a deferred writer whose last write only lands with the next write or a flush",
+ "C12f": "no group carried more than one metadata entry -> two groups with 9 metadata entries",
+ "C13e": "the strace leg never passed --verify-output -> every case with and without it",
+ "C13f": "chunks of the strace leg were 4 bytes -> 3 MiB chunks, consecutive write(2)s merged before judging",
+ "C14e": "the change unlinks the output, on a loop device the device NODE: the leg could not detach it and ended in a machinery error instead of a verdict -> nodes are put back before detaching, the removal is judged by the before/after comparison",
+ "C15e": "the scripted server redirected once -> a redirect chain of 300 hops that only a client-side hop limit ends, judged by the number of redirects followed",
+ "C15f": "no mutation touched metadata keys -> 85 adversarial keys (a multi-byte character straddling every cut position 1..80, long, control characters, empty)",
+ "C16f": "stdin seeds were always fed through a pipe -> stdin redirected from a regular file, alone and in place",
 }
 # written by the agents, confirmed to change behaviour, but judged NOT to break the property as stated: not kept
 REJECTED = {
